@@ -191,7 +191,7 @@ func (c carrierDef) render(q string, refs []string) (string, bool) {
 
 // ---------------------------------------------------------------- nesting
 
-var nests = []string{"body", "div", "media", "comment", "script", "head"}
+var nests = []string{"body", "div", "media", "comment", "script", "head", "json-script", "bad-json-script"}
 
 func nestLegal(nest string, c carrierDef) bool {
 	switch nest {
@@ -214,6 +214,10 @@ func document(nest, x string) string {
 		body = `<!-- <img src="/decoy/c.png"><a href="/decoy/c.html">x</a><link rel=stylesheet href="/decoy/c.css"> -->` + x
 	case "script":
 		body = `<script>var s = "<img src='/decoy/s.png'>"; var t = '<a href="/decoy/s.html">';</script>` + x
+	case "json-script": // structured data next to the requisites: content that carries none of them
+		body = `<script type="application/ld+json">{"@context":"https://schema.org/","@type":"Thing","name":"t"}</script>` + x
+	case "bad-json-script": // the same, not well-formed (a trailing comma): the page's requisites are what they were
+		body = `<script type="application/ld+json">{"@context":"https://schema.org/","@type":"Thing","name":"t",}</script>` + x
 	case "head":
 		head, body = x, ""
 	}
@@ -346,7 +350,7 @@ func alphabets(tier string) map[string]any {
 	}
 	pf, pq, pn := pairFormsQuick, []string{"dq"}, []string{"body"}
 	if tier == "thorough" {
-		pf, pq, pn = formNames, quotes, []string{"body", "div", "comment", "script"}
+		pf, pq, pn = formNames, quotes, []string{"body", "div", "comment", "script", "bad-json-script"}
 	}
 	return map[string]any{
 		"carriers": cs, "quoting": quotes, "reference_forms": formNames, "nesting": nests, "page_url": []string{"http://site.example/a/b/page.html", "https://site.example/a/b/page.html"},
@@ -436,7 +440,7 @@ func enumerate(tier string, f func(Case)) {
 	// pairs of carriers in one document (interference)
 	pf, pq, pn := pairFormsQuick, []string{"dq"}, []string{"body"}
 	if tier == "thorough" {
-		pf, pq, pn = formNames, quotes, []string{"body", "div", "comment", "script"}
+		pf, pq, pn = formNames, quotes, []string{"body", "div", "comment", "script", "bad-json-script"}
 	}
 	for _, a := range carriers {
 		for _, b := range carriers {
